@@ -21,7 +21,9 @@ Variable m : mock.
 
 (* the mock world is the design X = identity (n_samples = n_features): Xw_j = w_j + intercept, and every
    datafit quantity is a function of Xw only, as in the real code *)
-Definition g_at (Xw : list Q) (j : Z) : Q := Qred ((nthQ Xw j - nthQ (m_T m) j) * nthQ (m_a m) j).
+(* feature j is carried by sample j mod n_samples (n_samples may differ from n_features) *)
+Definition smp (Xw : list Q) (j : Z) : Z := (j mod (zlen Xw))%Z.
+Definition g_at (Xw : list Q) (j : Z) : Q := Qred ((nthQ Xw (smp Xw j) - nthQ (m_T m) j) * nthQ (m_a m) j).
 Definition mk_full_grad (w Xw : list Q) : res (list Q) := Ok (map (g_at Xw) (zrange 0 (zlen w))).
 Definition mk_grad_ws (w Xw : list Q) (ws : list Z) : res (list Q) := Ok (map (g_at Xw) ws).
 
@@ -63,10 +65,10 @@ Definition mk_epoch (w Xw lip : list Q) (ws : list Z) : res (list Q * list Q) :=
         let old := nthQ w j in
         let v0 := half (old + nthQ (m_T m) j) in
         let v := if Qltb (Qabs v0) (m_thr m) then 0 else if m_positive m && Qltb v0 0 then 0 else v0 in
-        (upd w (Z.to_nat j) v, upd Xw (Z.to_nat j) (Qred (nthQ Xw j + (v - old))))) ws (w, Xw)).
+        (upd w (Z.to_nat j) v, upd Xw (Z.to_nat (smp Xw j)) (Qred (nthQ Xw (smp Xw j) + (v - old))))) ws (w, Xw)).
 
 Definition mk_df_value (w Xw : list Q) : res Q :=
-  Ok (Qred (fold_left Qplus (map (fun j => (nthQ Xw j - nthQ (m_T m) j) * (nthQ Xw j - nthQ (m_T m) j) * nthQ (m_a m) j / 2)
+  Ok (Qred (fold_left Qplus (map (fun j => (nthQ Xw (smp Xw j) - nthQ (m_T m) j) * (nthQ Xw (smp Xw j) - nthQ (m_T m) j) * nthQ (m_a m) j / 2)
                                (zrange 0 (zlen w))) 0)).
 Definition mk_pen_value (w : list Q) : res (Ext Q) :=
   if m_positive m && existsb (fun x => Qltb x 0) w then Ok PInf
